@@ -269,4 +269,57 @@ ben("C07", "c07-benign-header-local", VTTW, 'return "WEBVTT\\n\\n" + self.style_
 ben2("C07", "c07-benign-open-order", VTTW, [("      if is_bold:\n        self._paragraphs[-1].append_text(style.BOLD_TAG_IN)\n      if is_italic:\n        self._paragraphs[-1].append_text(style.ITALIC_TAG_IN)", "      if is_italic:\n        self._paragraphs[-1].append_text(style.ITALIC_TAG_IN)\n      if is_bold:\n        self._paragraphs[-1].append_text(style.BOLD_TAG_IN)"),
      ("      if is_italic:\n        self._paragraphs[-1].append_text(style.ITALIC_TAG_OUT)\n      if is_bold:\n        self._paragraphs[-1].append_text(style.BOLD_TAG_OUT)", "      if is_bold:\n        self._paragraphs[-1].append_text(style.BOLD_TAG_OUT)\n      if is_italic:\n        self._paragraphs[-1].append_text(style.ITALIC_TAG_OUT)")], "both orders swapped consistently")
 
+# ---------------------------------------------------------------------------------------- C04
+ELS = "ttconv/imsc/elements.py"
+brk("C04", "c04-chained-first-wins", ELS, "        style_ref = style_element.style_refs.pop()\n", "        style_ref = style_element.style_refs.pop(0)\n", "PRI-style")
+brk("C04", "c04-ref-order", ELS, "      for style_ref in reversed(imsc_attr.StyleAttribute.extract(xml_elem)):", "      for style_ref in imsc_attr.StyleAttribute.extract(xml_elem):", "PRI-style")
+brk("C04", "c04-ref-overrides", ELS, "          if not self.model_element.has_style(model_prop):\n            self.model_element.set_style(model_prop, value)", "          self.model_element.set_style(model_prop, value)", "PRI-style")
+brk("C04", "c04-lang-parent-wins", ELS, "      self.lang = lang_attr_value if lang_attr_value is not None else parent_ctx.lang", "      self.lang = parent_ctx.lang if parent_ctx.lang is not None else lang_attr_value", "INH")
+brk("C04", "c04-dur-end-min", ELS, "        self.desired_end = min(self.desired_begin + self.explicit_dur, self.implicit_begin + self.explicit_end)\n        self.desired_end = min(self.desired_begin + self.explicit_dur, self.implicit_begin + self.explicit_end)\n",
+    "        self.desired_end = max(self.desired_begin + self.explicit_dur, self.implicit_begin + self.explicit_end)\n", "FIN-timing")
+brk("C04", "c04-end-from-desired-begin", ELS, "        self.desired_end = self.implicit_begin + self.explicit_end\n\n      else:", "        self.desired_end = self.desired_begin + self.explicit_end\n\n      else:", "FIN-timing")
+brk("C04", "c04-begin-ignores-implicit", ELS, "      self.desired_begin = self.implicit_begin + (self.explicit_begin if self.explicit_begin is not None else Fraction(0))", "      self.desired_begin = self.explicit_begin if self.explicit_begin is not None else self.implicit_begin", "FIN-timing")
+brk("C04", "c04-style-error-escapes", ELS, "          self.model_element.set_style(model_prop, model_value)\n\n        except ValueError:\n\n          LOGGER.error(\"Error reading style property: %s\", prop.__name__)", "          self.model_element.set_style(model_prop, model_value)\n\n        except KeyError:\n\n          LOGGER.error(\"Error reading style property: %s\", prop.__name__)", "EXC-attr")
+brk("C04", "c04-time-cache", "ttconv/imsc/attributes.py", "class BeginAttribute:", "_CACHE = {}\n\ndef _remember(k, v):\n  _CACHE[k] = v\n  return v\n\nclass BeginAttribute:", "STATE-alias")
+ben("C04", "c04-benign-min-once", ELS, "        self.desired_end = min(self.desired_begin + self.explicit_dur, self.implicit_begin + self.explicit_end)\n        self.desired_end = min(self.desired_begin + self.explicit_dur, self.implicit_begin + self.explicit_end)\n",
+    "        end_from_dur = self.desired_begin + self.explicit_dur\n        end_from_end = self.implicit_begin + self.explicit_end\n        self.desired_end = end_from_dur if end_from_dur <= end_from_end else end_from_end\n")
+ben("C04", "c04-benign-lang-form", ELS, "      self.lang = lang_attr_value if lang_attr_value is not None else parent_ctx.lang", "      self.lang = parent_ctx.lang if lang_attr_value is None else lang_attr_value")
+
+# ---------------------------------------------------------------------------------------- C05
+ISP = "ttconv/imsc/style_properties.py"
+brk("C05", "c05-px-scan-skips-animation", ELS, "    for element in all_elements:\n      for model_style_prop in element.iter_styles():", "    for element in all_elements:\n      if not element.has_children():\n        continue\n      for model_style_prop in element.iter_styles():", "TRAV")
+brk("C05", "c05-decoration-none", ISP, "      attrib_value = \" \".join(actual_values)\n\n      xml_element.set(f\"{{{cls.ns}}}{cls.local_name}\", attrib_value)", "      attrib_value = \" \".join(actual_values) if actual_values else \"none\"\n\n      xml_element.set(f\"{{{cls.ns}}}{cls.local_name}\", attrib_value)", "SPECIAL-emit")
+brk("C05", "c05-rubyreserve-haspx", ISP, "      return attrib_value.length is not None and attrib_value.length.units == styles.LengthType.Units.px", "      return False", None, "has_px no longer reports px ruby reserve")
+ben("C05", "c05-benign-px-scan-flag", ELS, "      if has_px:\n        break\n\n    if model_doc.get_px_resolution() is not None and has_px:", "      if has_px is True:\n        break\n\n    if model_doc.get_px_resolution() is not None and has_px:")
+
+# ---------------------------------------------------------------------------------------- C08
+SL = "ttconv/scc/line.py"
+brk("C08", "c08-dup-not-cleared", SL, "        context.previous_word = None\n        continue\n\n      self.time_code.add_frames()", "        continue\n\n      self.time_code.add_frames()", "DUP")
+brk("C08", "c08-frame-before-dup", SL, "      if context.previous_word is not None and context.previous_word.value == scc_word.value and context.previous_word.is_code():\n        context.previous_word = None\n        continue\n\n      self.time_code.add_frames()\n",
+    "      self.time_code.add_frames()\n\n      if context.previous_word is not None and context.previous_word.value == scc_word.value and context.previous_word.is_code():\n        context.previous_word = None\n        continue\n", None)
+brk("C08", "c08-channel2-text", SL, "        if context.current_channel is not SccChannel.CHANNEL_1:\n          # LOGGER.warning(\"Skip Caption Channel 2 code\")\n          continue\n\n", "", "ORD-channel")
+brk("C08", "c08-ext-no-backspace", SL, "        elif isinstance(scc_code, SccExtendedCharacter):\n          context.backspace()\n", "        elif isinstance(scc_code, SccExtendedCharacter):\n", "ORD-ext")
+brk("C08", "c08-rows-unsorted", "ttconv/scc/caption_paragraph.py", "    for row, caption_line in sorted(self._caption_lines.items()):", "    for row, caption_line in self._caption_lines.items():", "ORD-rows")
+ben("C08", "c08-benign-sorted-key", "ttconv/scc/caption_paragraph.py", "    for row, caption_line in sorted(self._caption_lines.items()):", "    for row, caption_line in sorted(self._caption_lines.items(), key=lambda kv: kv[0]):")
+ben("C08", "c08-benign-debug", SL, "    debug = str(self.time_code) + \"\\t\"\n\n    for scc_word in self.scc_words:", "    debug = f\"{self.time_code}\\t\"\n\n    for scc_word in self.scc_words:")
+
+# ---------------------------------------------------------------------------------------- C13 / C03 / C02 (new rules)
+brk("C13", "c13-lwsp-skips-nested-rt", ISD, "      if isinstance(isd_element, (model.P, model.Rt, model.Rtc)):", "      if isinstance(isd_element, (model.P, model.Rtc)):", "TYPE-GUARD")
+brk("C13", "c13-lwsp-on-spans", ISD, "      if isinstance(isd_element, (model.P, model.Rt, model.Rtc)):", "      if isinstance(isd_element, (model.P, model.Span, model.Rt, model.Rtc)):", "TYPE-GUARD")
+brk("C13", "c13-specified-showbackground", ISD, "        isd_element.get_style(styles.StyleProperties.ShowBackground) is styles.ShowBackgroundType.always\n      ):\n      return isd_element", "        element.get_style(styles.StyleProperties.ShowBackground) is styles.ShowBackgroundType.always\n      ):\n      return isd_element", "COMPUTED")
+ben("C13", "c13-benign-guard-split", ISD, "      if isinstance(isd_element, (model.P, model.Rt, model.Rtc)):", "      if isinstance(isd_element, model.P) or isinstance(isd_element, (model.Rt, model.Rtc)):")
+brk("C03", "c03-rt-always-half", ISD, "          (isinstance(element, model.Rt) and not isinstance(parent, model.Rtc))\n", "          isinstance(element, model.Rt)\n", "FIN-ruby")
+ben("C03", "c03-benign-ruby-guard-form", ISD, "      if (\n          isinstance(element, model.Rtc) or\n          (isinstance(element, model.Rt) and not isinstance(parent, model.Rtc))\n      ):",
+    "      if isinstance(element, (model.Rtc, model.Rt)) and not (isinstance(element, model.Rt) and isinstance(parent, model.Rtc)):")
+ben2("C02", "c02-benign-anim-after-children", ISD, [("      # add signficant times for the children of the element \n\n      for child_element in iter(element):\n        compute_sig_times(interval_cache, content_interval, s_times, child_element, begin_time, end_time)\n", ""),
+     ("      # add signficant times for any animation step \n", "      for child_element in iter(element):\n        compute_sig_times(interval_cache, content_interval, s_times, child_element, begin_time, end_time)\n\n      # add signficant times for any animation step \n")], "children visited before the animation steps")
+brk("C02", "c02-bg-anim-filter", ISD, "    for _anim_step in region.iter_animation_steps():\n      return True\n", "    for _anim_step in region.iter_animation_steps():\n      if _anim_step.style_property in (styles.StyleProperties.Opacity, styles.StyleProperties.Display):\n        return True\n", "READ-COVER")
+
+# ---------------------------------------------------------------------------------------- C18
+brk("C18", "c18-iso6937-lookahead", "ttconv/stl/iso6937.py", "      b = bytes(byte_buffer[i:i+2])", "      b = bytes((byte_buffer[i], byte_buffer[i + 1]))", "IDX-lookahead")
+brk("C18", "c18-rubyreserve-none-length", ISP, "      return attrib_value.length is not None and attrib_value.length.units == styles.LengthType.Units.px", "      return attrib_value.length.units == styles.LengthType.Units.px", "NUL-optfield")
+ben("C18", "c18-benign-optfield-early-return", ISP, "      return attrib_value.length is not None and attrib_value.length.units == styles.LengthType.Units.px", "      if attrib_value.length is None:\n        return False\n\n      return attrib_value.length.units == styles.LengthType.Units.px")
+ben("C18", "c18-benign-lookahead-form", "ttconv/srt/writer.py", "end = isds[i + 1][0] if i + 1 < len(isds) else None", "end = isds[i + 1][0] if i < len(isds) - 1 else None")
+brk("C18", "c18-lookahead-off-by-one", "ttconv/srt/writer.py", "end = isds[i + 1][0] if i + 1 < len(isds) else None", "end = isds[i + 1][0] if i < len(isds) else None", "IDX-lookahead")
+
 VARIANTS = V
